@@ -22,6 +22,7 @@ static void load_kf_file(Ctx& ctx, const char* path)
 }
 extern "C" int LLVMFuzzerInitialize(int*, char***)
 {
+  g_fuzz_mode = true;
   g_ctx = new Ctx(); Cut c; c.name = cut_config(); c.path = "(static)"; c.table = cut_table(&c.n);
   if (c.n != E_COUNT) { fprintf(stderr, "fuzz: entry count mismatch\n"); abort(); }
   c.ub_count = cut_ub_count; c.ub_events = cut_ub_events; c.ub_reset = cut_ub_reset; c.sanitized = true;
